@@ -181,6 +181,14 @@ class C09(common.Check):
             late = l0 * 1024 * B + rng.randrange(512 * B, 1024 * B)
             back = l0 * 1024 * B + rng.choice((0, 1, 7, B - 1, B, 32 * B - 1, 32 * B, rng.randrange(0, late - l0 * 1024 * B)))
             out.append(["seed", rng.choice(("sync", "async")), back, 0, [late]])
+        # ... and steps back to an earlier L2 interval of the SAME L1 interval as the cached seed (NTP correction, DC clock ahead of ours)
+        for _ in range(400 if tier == "quick" else 10000):
+            l0 = rng.randrange(330, 500)
+            l1 = rng.randrange(32)
+            l2 = rng.randrange(1, 32)
+            late = ((l0 * 32 + l1) * 32 + l2) * B + rng.randrange(B)
+            back = ((l0 * 32 + l1) * 32 + rng.randrange(0, l2)) * B + rng.choice((0, 1, B - 1, rng.randrange(B)))
+            out.append(["seed", rng.choice(("sync", "async")), back, 0, [late]])
         # the clock advances between two readings inside one call and crosses an L2 / L1 / L0 boundary meanwhile
         for l0 in range(330, 500, 7 if tier == "quick" else 1):
             for k, tick_ticks in ((1, 1), (2, 1), (1, 2), (3, 2), (1, 1000)):
